@@ -46,8 +46,8 @@ theorem runRows_presentation_independent (ext : Ext) (fields : List Field) (rows
     (hraw1 : ∀ x ∈ rows1, noRaw x = true) (hraw2 : ∀ x ∈ rows2, noRaw x = true)
     (hsame : rows1.map (interpRow ext fields) = rows2.map (interpRow ext fields))
     (h1 : runRows ext fields rows1 = .ok r1) (h2 : runRows ext fields rows2 = .ok r2) : dec r1 = dec r2 := by
-  obtain ⟨a1, _, _⟩ := C01.runRows_interp' ext fields rows1 root0 r1 hc h0 (fun x hx => noRaw_ssa x (hraw1 x hx)) (Or.inl hraw1) h1
-  obtain ⟨a2, _, _⟩ := C01.runRows_interp' ext fields rows2 root0 r2 hc h0 (fun x hx => noRaw_ssa x (hraw2 x hx)) (Or.inl hraw2) h2
+  obtain ⟨a1, _, _⟩ := C01.runRows_interp' ext fields rows1 root0 r1 (all_coveredWF_of_coveredF hc) h0 (fun x hx => noRaw_ssa x (hraw1 x hx)) (Or.inl hraw1) h1
+  obtain ⟨a2, _, _⟩ := C01.runRows_interp' ext fields rows2 root0 r2 (all_coveredWF_of_coveredF hc) h0 (fun x hx => noRaw_ssa x (hraw2 x hx)) (Or.inl hraw2) h2
   exact go _ _ _ _ a1 a2 hsame
 where
   go : ∀ (l1 : List LVal) (rows1 : List SVal) (l2 : List LVal) (rows2 : List SVal),
